@@ -13,13 +13,13 @@ const N: u32 = 47;
 /// table-driven routine (both alignments that the 7+8+8+8+8+8 split can produce).
 pub const WINDOW_OFFSETS: [u32; 11] = [0, 7, 8, 15, 16, 23, 24, 31, 32, 39, 40];
 
-struct Sylow {
-    g: B,
-    m_inv: B, // M^-1 mod 2^47
-    m: B,
+pub struct Sylow {
+    pub g: B,
+    pub m_inv: B, // M^-1 mod 2^47
+    pub m: B,
 }
 
-fn sylow(ctx: &Ctx) -> Sylow {
+pub fn sylow(ctx: &Ctx) -> Sylow {
     let f = &ctx.c.f;
     assert_eq!(f.s, N);
     let m = f.t.clone();
@@ -38,7 +38,7 @@ fn sylow(ctx: &Ctx) -> Sylow {
 }
 
 /// 2-primary discrete log of v (an element of the 2-Sylow subgroup) to the base g
-fn dlog2(ctx: &Ctx, sy: &Sylow, v: &B) -> B {
+pub fn dlog2(ctx: &Ctx, sy: &Sylow, v: &B) -> B {
     let f = &ctx.c.f;
     // Pohlig-Hellman in a cyclic 2-group: peel bits from the bottom
     let mut e = b(0);
@@ -62,12 +62,46 @@ fn dlog2(ctx: &Ctx, sy: &Sylow, v: &B) -> B {
 }
 
 fn record_windows(rec: &mut Rec, e: &B) {
+    record_windows_as(rec, "window", e)
+}
+
+/// structured 2-primary exponents: every value of every 8-bit window (optionally only every
+/// `stride`-th value), all-zero, all-ones, powers of two
+pub fn structured_exponents(stride: usize) -> Vec<B> {
+    let two47 = b(1) << N;
+    let mut v: Vec<B> = vec![b(0), &two47 - b(1)];
+    for off in WINDOW_OFFSETS {
+        for val in (0u64..256).step_by(stride) {
+            let e = (b(val) << off) % &two47;
+            v.push(e.clone());
+            v.push((&two47 - &e) % &two47);
+        }
+    }
+    for k in 0..N {
+        v.push(b(1) << k);
+    }
+    v
+}
+
+/// a field element whose 2-primary component (its M-th power) is g^e, with random odd part
+pub fn element_with_exponent(ctx: &Ctx, sy: &Sylow, e: &B, rng: &mut impl rand_core::RngCore) -> B {
+    let f = &ctx.c.f;
+    let two47 = b(1) << N;
+    let a = (e * &sy.m_inv) % &two47;
+    let mut u = rand_below(rng, &f.p);
+    if u == b(0) {
+        u = b(1);
+    }
+    f.mul(&f.pow(&sy.g, &a), &f.pow(&u, &two47))
+}
+
+pub fn record_windows_as(rec: &mut Rec, prefix: &str, e: &B) {
     let two47 = b(1) << N;
     let neg = (&two47 - e) % &two47;
     for (name, v) in [("e", e), ("-e", &neg)] {
         for off in WINDOW_OFFSETS {
             let w = ((v >> off) & b(0xff)).to_u64_digits().first().copied().unwrap_or(0);
-            rec.set_insert(&format!("window[{name}>>{off}]"), w);
+            rec.set_insert(&format!("{prefix}[{name}>>{off}]"), w);
         }
     }
 }
